@@ -1008,3 +1008,28 @@ func (c *Ctx) outermost(fn *ssa.Function) *ssa.Function {
 	}
 	return fn
 }
+
+// routineOf is outermost without the stop at exported functions: the function
+// (possibly exported) that fn is a step of.
+func (c *Ctx) routineOf(fn *ssa.Function) *ssa.Function {
+	for d := 0; d < 3 && fn != nil; d++ {
+		sites, known := c.staticCallSites(fn)
+		if !known || len(sites) == 0 {
+			break
+		}
+		var caller *ssa.Function
+		one := true
+		for _, s := range sites {
+			g := topFunc(s.Parent())
+			if caller != nil && g != caller {
+				one = false
+			}
+			caller = g
+		}
+		if !one || caller == nil || caller == fn {
+			break
+		}
+		fn = caller
+	}
+	return fn
+}
